@@ -203,7 +203,7 @@ class Worker:
         c = self.cluster
         self.impl = c.impl_factory()
         self.rpc = RpcServer(c.protocol, self.impl, server_id=self.server_id, enable_describe=c.enable_describe,
-                             external_location=c.external_config)
+                             external_location=c.external_config, **c.server_kwargs)
         kw = dict(c.app_kwargs)
         if c.per_worker_kwargs:
             kw.update(c.per_worker_kwargs(self.idx))
@@ -219,7 +219,7 @@ class Worker:
 class Cluster:
     def __init__(self, ctx: Any, sched: Scheduler, protocol: Any, impl_factory: Callable[[], Any], *, n_workers: int = 1,
                  app_kwargs: dict[str, Any] | None = None, per_worker_kwargs: Callable[[int], dict[str, Any]] | None = None,
-                 external_config: Any = None, enable_describe: bool = False) -> None:
+                 external_config: Any = None, enable_describe: bool = False, server_kwargs: dict[str, Any] | None = None) -> None:
         self.ctx = ctx
         self.sched = sched
         self.protocol = protocol
@@ -228,6 +228,7 @@ class Cluster:
         self.per_worker_kwargs = per_worker_kwargs
         self.external_config = external_config
         self.enable_describe = enable_describe
+        self.server_kwargs = server_kwargs or {}
         self.workers = [Worker(self, i, f"w{i}") for i in range(n_workers)]
         self.requests: list[dict[str, Any]] = []  # every request/response pair that crossed the network
         self.taps: list[Callable[[dict[str, Any]], None]] = []
